@@ -3,8 +3,14 @@ package link
 import (
 	"bytes"
 	"fmt"
+	"io"
+	"math/big"
 	"sort"
+	"strings"
 
+	"perun.network/go-perun/channel"
+	"perun.network/go-perun/client"
+	"perun.network/go-perun/wallet"
 	"perun.network/go-perun/wire"
 	wirenet "perun.network/go-perun/wire/net"
 
@@ -35,7 +41,7 @@ func genC16(r *kernel.Rand, sc *kernel.Scenario, tier string, run int, exhaustiv
 				if i > 0 {
 					t = gen.MsgTypes[rr.Intn(len(gen.MsgTypes))]
 				}
-				sh := gen.ValShape{Parts: 2, Assets: 1, Locked: rr.Intn(2), IndexMap: rr.Bool(0.5), App: rr.Intn(3),
+				sh := gen.ValShape{Parts: 2, Assets: 1, Locked: rr.Intn(2), IndexMap: rr.Bool(0.5), App: rr.Intn(4),
 					SigMask: uint32(rr.Uint64()), Flags: rr.Intn(16) &^ 4, Text: rr.Range(0, 24)}
 				args := append([]any{"kind", "Env", "type", int(t), "seed", int64(rr.Uint64() >> 2)}, sh.ShapeArgs()...)
 				steps = append(steps, kernel.St("val", args...))
@@ -62,6 +68,14 @@ func genC16(r *kernel.Rand, sc *kernel.Scenario, tier string, run int, exhaustiv
 	long := r.Bool(0.6)
 	for i := 0; i < k; i++ {
 		sc.Steps = append(sc.Steps, valStep(r, "Env", gen.MsgTypes[r.Intn(len(gen.MsgTypes))], long && r.Bool(0.7)))
+	}
+	if r.Bool(0.3) {
+		// sender-side fault: before envelope "before" the application hands an
+		// envelope to the connection that cannot be encoded (kind 0: a reason
+		// longer than the 16-bit length prefix allows, 1: a balance above the
+		// 128-byte limit); the Send must fail and must not disturb the framing
+		// of what is sent before and after it on the same connection
+		sc.Faults = append(sc.Faults, kernel.St("badsend", "before", r.Intn(k+1), "kind", r.Intn(2)))
 	}
 	for ser := 0; ser < 2; ser++ {
 		sc.Faults = append(sc.Faults,
@@ -236,13 +250,44 @@ func (Engine) execC16(sc *kernel.Scenario, res *kernel.Result, trace bool) {
 		l := NewLink()
 		conn := wirenet.NewIoConn(l.A, serializers[ser])
 		var frameEnds []int
+		closedAfter, badSent := -1, false
 		for i, v := range vals {
+			for fi := range sc.Faults {
+				if f := &sc.Faults[fi]; f.Op == "badsend" && int(f.Int("before")) == i && closedAfter < 0 {
+					bad := unencodable(v.v.(*wire.Envelope), int(f.Int("kind")))
+					if serializers[ser].Encode(io.Discard, bad) == nil {
+						res.Count("probe.bad-envelope-encodable", 1) // not a fault for this serializer
+						continue
+					}
+					res.Count("fault.unencodable-send", 1)
+					if err := conn.Send(bad); err == nil {
+						res.Fail(fi, "C16.unencodable-sent@"+serNames[ser], "an envelope that cannot be encoded was reported as sent")
+						return
+					}
+					badSent = true
+				}
+			}
 			if err := conn.Send(v.v.(*wire.Envelope)); err != nil {
+				if badSent {
+					// the connection may give up after a failed Send: the rest is not sent
+					closedAfter = i
+					res.Count("probe.conn-closed-after-failed-send", 1)
+					break
+				}
 				res.Fail(i, "C16.encode-error@"+serNames[ser]+"/"+v.label, "well-formed envelope %d could not be sent: %v", i, err)
 				return
 			}
 			d, _ := l.A.Sent()
 			frameEnds = append(frameEnds, len(d))
+		}
+		allVals := vals
+		if closedAfter >= 0 {
+			// only what was reported as sent must arrive, in order and unchanged
+			vals = vals[:closedAfter]
+			if len(vals) == 0 {
+				vals = allVals
+				continue
+			}
 		}
 		data, writes := l.A.Sent()
 		logf("%s stream: %d envelopes, %d bytes, %d writes, frames end at %v", serNames[ser], len(vals), len(data), len(writes), frameEnds)
@@ -325,8 +370,24 @@ func (Engine) execC16(sc *kernel.Scenario, res *kernel.Result, trace bool) {
 			}
 			kernel.Progress()
 		}
+		vals = allVals
 	}
 	res.NonTrivial = splitInside
+}
+
+// unencodable returns an envelope between the same two parties that neither
+// serializer can encode.
+func unencodable(like *wire.Envelope, kind int) *wire.Envelope {
+	e := &wire.Envelope{Sender: like.Sender, Recipient: like.Recipient}
+	if kind == 0 {
+		e.Msg = &wire.ShutdownMsg{Reason: strings.Repeat("x", 70000)}
+		return e
+	}
+	huge := new(big.Int).Lsh(big.NewInt(1), 8*200)
+	st := &channel.State{App: channel.NoApp(), Data: channel.NoData(), Allocation: channel.Allocation{
+		Assets: []channel.Asset{gen.Asset(0)}, Backends: []wallet.BackendID{channel.TestBackendID}, Balances: channel.Balances{{huge, big.NewInt(1)}}}}
+	e.Msg = &client.ChannelUpdateMsg{ChannelUpdate: client.ChannelUpdate{State: st}, Sig: make([]byte, 64)}
+	return e
 }
 
 func prevEnd(ends []int, i int) int {
